@@ -162,6 +162,54 @@ def run(prog, rep):
     from rules import stream_window
     stream_window.check(prog, rep, 'R2.6', floor=9)
 
+    # ---------------------------------------------------------------- R2.7 CSV unescape stays inside the cell
+    from rules import c09 as C9
+    from bsv.linear import Lin as _Lin, le as _le
+    rep.rule('R2.7', 'CSV UnescapeValue (both readers), cell [B, B+L) with symbolic length L >= 1 (callers pass cells that contain a quote): every '
+                     'dereference / index lies inside the cell, unsigned subtractions do not wrap, and pointer loops with != termination '
+                     'start at or before their end - each entailed by the guards on the path (linear constraints, Fourier-Motzkin)', floor=6)
+    for cls in ('CCsvStringReader', 'CCsvStreamReader'):
+        fs = [g for g in prog.funcs.values() if g.q == C9.NS + cls + '::UnescapeValue']
+        if len(fs) != 1:
+            raise AnalysisBroken('anchor vanished: %s::UnescapeValue' % cls)
+        f = fs[0]
+        rep.touch(f)
+        # precondition: every call site sits under a test of HasEscapedChars (set by the row parser when the cell contains a quote)
+        n_calls = 0
+        for g in prog.funcs.values():
+            if g.cls != C9.NS + cls:
+                continue
+            for n in g.walk():
+                if n['k'] in ('CallExpr', 'CXXMemberCallExpr') and (g.callee(n) or {}).get('id') == f.id:
+                    n_calls += 1
+                    p, guarded = g.parent(n), False
+                    while p is not None:
+                        if p['k'] == 'IfStmt' and any(m.get('m') == 'HasEscapedChars' for c in p['c'][:1] if c for m in g.walk(c)):
+                            guarded = True
+                            break
+                        p = g.parent(p)
+                    if guarded:
+                        rep.ok('R2.7', '%s|call %s' % (cls, g.loc(n)))
+                    else:
+                        rep.finding('R2.7', '%s|unguarded call in %s' % (cls, g.name), g.loc(n),
+                                    '%s::UnescapeValue is called outside a test of HasEscapedChars: the cell may be empty' % cls, func=g.id)
+        if not n_calls:
+            raise AnalysisBroken('R2.7: no call of %s::UnescapeValue found' % cls)
+        needs = []
+        C9.unescape_outcomes(prog, f, [_le(1, _Lin.sym('L'))], needs)
+        if not needs:
+            raise AnalysisBroken('R2.7: no memory obligation generated for %s::UnescapeValue' % cls)
+        byloc = {}
+        for _, what, where, ok in needs:
+            byloc.setdefault((what, where), []).append(ok)
+        for (what, where), oks in sorted(byloc.items()):
+            if all(oks):
+                rep.ok('R2.7', '%s|%s|%s' % (cls, what, where), sample={'reader': cls, 'obligation': what, 'at': where, 'paths': len(oks)})
+            else:
+                rep.finding('R2.7', '%s::UnescapeValue|%s' % (cls, what), where,
+                            '%s::UnescapeValue: "%s" is not entailed by the guards on %d of %d path(s) - a short or unterminated quoted cell '
+                            'makes the unescape loop leave the cell' % (cls, what, len([o for o in oks if not o]), len(oks)), func=f.id)
+
     # ---------------------------------------------------------------- R2.5 end-guard agreement
     rep.rule('R2.5', 'array read scope: the comparison guarding the element fetch (LoadNextItem/CheckEnd) tests the same iterator against '
                      'the same end as IsEnd()', floor=2)
